@@ -56,3 +56,12 @@ func VerifDupSortDecodeOne(e snapshot.KV) (snapshot.KV, error) { return dupSortH
 func VerifDupSortEncode(d *snapshot.DBI) (*snapshot.DBI, error) { return dupSortHackEncode(d) }
 
 func VerifDupSortDecode(d *snapshot.DBI) (*snapshot.DBI, error) { return dupSortHackDecode(d) }
+
+// VerifLoadBegin, when set, is called at the start of LoadOnce with the update being loaded.
+var VerifLoadBegin func(s *Syncer, instance string, update *snapshot.Update)
+
+func verifLoadBegin(s *Syncer, instance string, update *snapshot.Update) {
+	if VerifLoadBegin != nil {
+		VerifLoadBegin(s, instance, update)
+	}
+}
